@@ -19,6 +19,7 @@ LEVELS = {
     "C07": "other",
     "C09": "other",
     "C15": "other",
+    "C12": "other",
 }
 EXPLAIN = {}
 TRUSTED = [
@@ -50,6 +51,8 @@ PROP_ASSUMPTIONS = {
     "C11": ["the window bound is a paper lemma over the proved per-call contracts (DESIGN.md C11), not machine-checked; the gap task's timing is not decided"],
     "C13": ["about 150 composite views (schema/params/status dictionaries, OpenTherm views) are not under contract; they only have the bounded native sweep views_answer_after_a_mutated_packet_native",
             "histories are not quantified over: contracts are per stored message / per call"],
+    "C12": ["convergence of the closed loop (prober, controller, timers) is a liveness property and is NOT decided; only the request set, the interpretation of RP|0005 / RP|000C and one pass of discover() are under contract",
+            "get_htg_zone, Gateway.get_device and Zone._update_schema are recording call-site contracts; messages are given as decoded payloads (the decoders are under C05)"],
     "C15": ["only the association step (Child.set_parent / _get_parent / Parent._add_child) and Zone.__init__ are under contract; the schema validators (voluptuous), re-loading a schema into a fresh gateway and whole packet histories are not decided",
             "Evohome.get_htg_zone / get_dhw_zone are contracts: the zone of that index of that system, created if need be"],
     "C14": ["MultiZone._handle_msg routing of array payloads to zones is not decided"],
